@@ -96,3 +96,325 @@ Check C04_lzma_compress_conformant : forall (fuel : positive) (o : enc_unpacked)
     snk_bytes (i_snk w') = snk_bytes k ++ header o ++ payload /\
     enc_payload_gen false {| f_lc := 3; f_lp := 0; f_pb := 2 |} (Some 8388608) (lit_program o data) 0 = Some (payload, data).
 Print Assumptions C04_lzma_compress_conformant.
+
+From LZ Require Import Model.Lzma2 Model.Xz Model.Enc Format.RefEnc Proofs.EncCarry Proofs.LzmaExactOpts Proofs.LzmaRoundTrip Proofs.Lzma2EncConform Proofs.XzSound Proofs.XzEncConform Proofs.XzRoundTrip.
+
+(* WriteToHeader(None) -> ReadFromHeader: decode(encode(data)) = data for every data, every fragmentation on both sides, non-failing sinks   [proved as lzma_round_trip_marker in Proofs/LzmaRoundTrip.v] *)
+Theorem C04_lzma_round_trip_marker :
+  forall (fuel fuel' : positive) (ml : option N) (ai : bool) (data : list N) (frag1 frag2 : N -> N)
+    (k1 k2 : snk),
+  bytes data ->
+  k_wfail k1 = None ->
+  k_wfail k2 = None ->
+  k_ffail k2 = false ->
+  nlen data < N.pos fuel ->
+  9 * nlen data + 50 < 4294967296 ->
+  (length data + 2 <= Pos.to_nat fuel')%nat ->
+  memlimit_ok ml 8388608 ->
+  exists (file : list N) (w1 w2 : io),
+    lzma_compress fuel (WriteToHeader None) {| i_src := src_of data frag1 None; i_snk := k1 |} = (Done tt, w1) /\
+    snk_bytes (i_snk w1) = snk_bytes k1 ++ file /\
+    lzma_decompress fuel' {| o_unpacked := ReadFromHeader; o_memlimit := ml; o_allow_incomplete := ai |}
+      {| i_src := src_of file frag2 None; i_snk := k2 |} = (Done tt, w2) /\
+    snk_bytes (i_snk w2) = snk_bytes k2 ++ data /\
+    k_flushes (i_snk w2) = k_flushes k2 + 1 /\ s_pos (i_src w2) = nlen file /\ s_rest (i_src w2) = [].
+Proof. exact (@lzma_round_trip_marker). Qed.
+Check C04_lzma_round_trip_marker :
+  forall (fuel fuel' : positive) (ml : option N) (ai : bool) (data : list N) (frag1 frag2 : N -> N)
+    (k1 k2 : snk),
+  bytes data ->
+  k_wfail k1 = None ->
+  k_wfail k2 = None ->
+  k_ffail k2 = false ->
+  nlen data < N.pos fuel ->
+  9 * nlen data + 50 < 4294967296 ->
+  (length data + 2 <= Pos.to_nat fuel')%nat ->
+  memlimit_ok ml 8388608 ->
+  exists (file : list N) (w1 w2 : io),
+    lzma_compress fuel (WriteToHeader None) {| i_src := src_of data frag1 None; i_snk := k1 |} = (Done tt, w1) /\
+    snk_bytes (i_snk w1) = snk_bytes k1 ++ file /\
+    lzma_decompress fuel' {| o_unpacked := ReadFromHeader; o_memlimit := ml; o_allow_incomplete := ai |}
+      {| i_src := src_of file frag2 None; i_snk := k2 |} = (Done tt, w2) /\
+    snk_bytes (i_snk w2) = snk_bytes k2 ++ data /\
+    k_flushes (i_snk w2) = k_flushes k2 + 1 /\ s_pos (i_src w2) = nlen file /\ s_rest (i_src w2) = [].
+Print Assumptions C04_lzma_round_trip_marker.
+
+(* WriteToHeader(Some len) -> ReadFromHeader   [proved as lzma_round_trip_sized in Proofs/LzmaRoundTrip.v] *)
+Theorem C04_lzma_round_trip_sized :
+  forall (fuel fuel' : positive) (ml : option N) (ai : bool) (data : list N) (frag1 frag2 : N -> N)
+    (k1 k2 : snk),
+  bytes data ->
+  k_wfail k1 = None ->
+  k_wfail k2 = None ->
+  k_ffail k2 = false ->
+  nlen data < N.pos fuel ->
+  9 * nlen data + 50 < 4294967296 ->
+  (length data + 2 <= Pos.to_nat fuel')%nat ->
+  memlimit_ok ml 8388608 ->
+  exists (file : list N) (w1 w2 : io),
+    lzma_compress fuel (WriteToHeader (Some (nlen data))) {| i_src := src_of data frag1 None; i_snk := k1 |} =
+    (Done tt, w1) /\
+    snk_bytes (i_snk w1) = snk_bytes k1 ++ file /\
+    lzma_decompress fuel' {| o_unpacked := ReadFromHeader; o_memlimit := ml; o_allow_incomplete := ai |}
+      {| i_src := src_of file frag2 None; i_snk := k2 |} = (Done tt, w2) /\
+    snk_bytes (i_snk w2) = snk_bytes k2 ++ data /\
+    k_flushes (i_snk w2) = k_flushes k2 + 1 /\ s_pos (i_src w2) = nlen file /\ s_rest (i_src w2) = [].
+Proof. exact (@lzma_round_trip_sized). Qed.
+Check C04_lzma_round_trip_sized :
+  forall (fuel fuel' : positive) (ml : option N) (ai : bool) (data : list N) (frag1 frag2 : N -> N)
+    (k1 k2 : snk),
+  bytes data ->
+  k_wfail k1 = None ->
+  k_wfail k2 = None ->
+  k_ffail k2 = false ->
+  nlen data < N.pos fuel ->
+  9 * nlen data + 50 < 4294967296 ->
+  (length data + 2 <= Pos.to_nat fuel')%nat ->
+  memlimit_ok ml 8388608 ->
+  exists (file : list N) (w1 w2 : io),
+    lzma_compress fuel (WriteToHeader (Some (nlen data))) {| i_src := src_of data frag1 None; i_snk := k1 |} =
+    (Done tt, w1) /\
+    snk_bytes (i_snk w1) = snk_bytes k1 ++ file /\
+    lzma_decompress fuel' {| o_unpacked := ReadFromHeader; o_memlimit := ml; o_allow_incomplete := ai |}
+      {| i_src := src_of file frag2 None; i_snk := k2 |} = (Done tt, w2) /\
+    snk_bytes (i_snk w2) = snk_bytes k2 ++ data /\
+    k_flushes (i_snk w2) = k_flushes k2 + 1 /\ s_pos (i_src w2) = nlen file /\ s_rest (i_src w2) = [].
+Print Assumptions C04_lzma_round_trip_sized.
+
+(* SkipWritingToHeader -> UseProvided(Some len)   [proved as lzma_round_trip_skip in Proofs/LzmaRoundTrip.v] *)
+Theorem C04_lzma_round_trip_skip :
+  forall (fuel fuel' : positive) (ml : option N) (ai : bool) (data : list N) (frag1 frag2 : N -> N)
+    (k1 k2 : snk),
+  bytes data ->
+  k_wfail k1 = None ->
+  k_wfail k2 = None ->
+  k_ffail k2 = false ->
+  nlen data < N.pos fuel ->
+  9 * nlen data + 50 < 4294967296 ->
+  (length data + 2 <= Pos.to_nat fuel')%nat ->
+  memlimit_ok ml 8388608 ->
+  exists (file : list N) (w1 w2 : io),
+    lzma_compress fuel SkipWritingToHeader {| i_src := src_of data frag1 None; i_snk := k1 |} = (Done tt, w1) /\
+    snk_bytes (i_snk w1) = snk_bytes k1 ++ file /\
+    lzma_decompress fuel'
+      {| o_unpacked := UseProvided (Some (nlen data)); o_memlimit := ml; o_allow_incomplete := ai |}
+      {| i_src := src_of file frag2 None; i_snk := k2 |} = (Done tt, w2) /\
+    snk_bytes (i_snk w2) = snk_bytes k2 ++ data /\
+    k_flushes (i_snk w2) = k_flushes k2 + 1 /\ s_pos (i_src w2) = nlen file /\ s_rest (i_src w2) = [].
+Proof. exact (@lzma_round_trip_skip). Qed.
+Check C04_lzma_round_trip_skip :
+  forall (fuel fuel' : positive) (ml : option N) (ai : bool) (data : list N) (frag1 frag2 : N -> N)
+    (k1 k2 : snk),
+  bytes data ->
+  k_wfail k1 = None ->
+  k_wfail k2 = None ->
+  k_ffail k2 = false ->
+  nlen data < N.pos fuel ->
+  9 * nlen data + 50 < 4294967296 ->
+  (length data + 2 <= Pos.to_nat fuel')%nat ->
+  memlimit_ok ml 8388608 ->
+  exists (file : list N) (w1 w2 : io),
+    lzma_compress fuel SkipWritingToHeader {| i_src := src_of data frag1 None; i_snk := k1 |} = (Done tt, w1) /\
+    snk_bytes (i_snk w1) = snk_bytes k1 ++ file /\
+    lzma_decompress fuel'
+      {| o_unpacked := UseProvided (Some (nlen data)); o_memlimit := ml; o_allow_incomplete := ai |}
+      {| i_src := src_of file frag2 None; i_snk := k2 |} = (Done tt, w2) /\
+    snk_bytes (i_snk w2) = snk_bytes k2 ++ data /\
+    k_flushes (i_snk w2) = k_flushes k2 + 1 /\ s_pos (i_src w2) = nlen file /\ s_rest (i_src w2) = [].
+Print Assumptions C04_lzma_round_trip_skip.
+
+(* any header size value, decoded with ReadHeaderButUseProvided   [proved as lzma_round_trip_override in Proofs/LzmaRoundTrip.v] *)
+Theorem C04_lzma_round_trip_override :
+  forall (fuel fuel' : positive) (x ml : option N) (ai : bool) (data : list N) (frag1 frag2 : N -> N)
+    (k1 k2 : snk),
+  bytes data ->
+  k_wfail k1 = None ->
+  k_wfail k2 = None ->
+  k_ffail k2 = false ->
+  nlen data < N.pos fuel ->
+  9 * nlen data + 50 < 4294967296 ->
+  (length data + 2 <= Pos.to_nat fuel')%nat ->
+  memlimit_ok ml 8388608 ->
+  exists (file : list N) (w1 w2 : io),
+    lzma_compress fuel (WriteToHeader x) {| i_src := src_of data frag1 None; i_snk := k1 |} = (Done tt, w1) /\
+    snk_bytes (i_snk w1) = snk_bytes k1 ++ file /\
+    lzma_decompress fuel'
+      {|
+        o_unpacked := ReadHeaderButUseProvided (override_size x data);
+        o_memlimit := ml;
+        o_allow_incomplete := ai
+      |} {| i_src := src_of file frag2 None; i_snk := k2 |} = (Done tt, w2) /\
+    snk_bytes (i_snk w2) = snk_bytes k2 ++ data /\
+    k_flushes (i_snk w2) = k_flushes k2 + 1 /\ s_pos (i_src w2) = nlen file /\ s_rest (i_src w2) = [].
+Proof. exact (@lzma_round_trip_override). Qed.
+Check C04_lzma_round_trip_override :
+  forall (fuel fuel' : positive) (x ml : option N) (ai : bool) (data : list N) (frag1 frag2 : N -> N)
+    (k1 k2 : snk),
+  bytes data ->
+  k_wfail k1 = None ->
+  k_wfail k2 = None ->
+  k_ffail k2 = false ->
+  nlen data < N.pos fuel ->
+  9 * nlen data + 50 < 4294967296 ->
+  (length data + 2 <= Pos.to_nat fuel')%nat ->
+  memlimit_ok ml 8388608 ->
+  exists (file : list N) (w1 w2 : io),
+    lzma_compress fuel (WriteToHeader x) {| i_src := src_of data frag1 None; i_snk := k1 |} = (Done tt, w1) /\
+    snk_bytes (i_snk w1) = snk_bytes k1 ++ file /\
+    lzma_decompress fuel'
+      {|
+        o_unpacked := ReadHeaderButUseProvided (override_size x data);
+        o_memlimit := ml;
+        o_allow_incomplete := ai
+      |} {| i_src := src_of file frag2 None; i_snk := k2 |} = (Done tt, w2) /\
+    snk_bytes (i_snk w2) = snk_bytes k2 ++ data /\
+    k_flushes (i_snk w2) = k_flushes k2 + 1 /\ s_pos (i_src w2) = nlen file /\ s_rest (i_src w2) = [].
+Print Assumptions C04_lzma_round_trip_override.
+
+(* lzma2_compress emits one uncompressed dictionary-reset chunk per read (1..65536 bytes each, concatenation = input) and the end byte, for every reader fragmentation   [proved as lzma2_compress_spec in Proofs/Lzma2EncConform.v] *)
+Theorem C04_lzma2_compress_conformant :
+  forall (fuel : positive) (data : list N) (frag : N -> N) (k : snk),
+  k_wfail k = None ->
+  nlen data < N.pos fuel ->
+  exists (w' : io) (chunks : list (list N)),
+    lzma2_compress fuel {| i_src := src_of data frag None; i_snk := k |} = (Done tt, w') /\
+    concat chunks = data /\
+    Forall (fun c : list N => 1 <= nlen c <= 65536) chunks /\
+    snk_bytes (i_snk w') =
+    snk_bytes k ++ concat (map (fun c : list N => 1 :: be_bytes 2 (nlen c - 1) ++ c) chunks) ++ [0] /\
+    s_rest (i_src w') = [] /\ k_wfail (i_snk w') = None.
+Proof. exact (@lzma2_compress_spec). Qed.
+Check C04_lzma2_compress_conformant :
+  forall (fuel : positive) (data : list N) (frag : N -> N) (k : snk),
+  k_wfail k = None ->
+  nlen data < N.pos fuel ->
+  exists (w' : io) (chunks : list (list N)),
+    lzma2_compress fuel {| i_src := src_of data frag None; i_snk := k |} = (Done tt, w') /\
+    concat chunks = data /\
+    Forall (fun c : list N => 1 <= nlen c <= 65536) chunks /\
+    snk_bytes (i_snk w') =
+    snk_bytes k ++ concat (map (fun c : list N => 1 :: be_bytes 2 (nlen c - 1) ++ c) chunks) ++ [0] /\
+    s_rest (i_src w') = [] /\ k_wfail (i_snk w') = None.
+Print Assumptions C04_lzma2_compress_conformant.
+
+(* LZMA2 round trip, any fragmentation on both sides   [proved as lzma2_round_trip in Proofs/Lzma2EncConform.v] *)
+Theorem C04_lzma2_round_trip :
+  forall (fuel fuel' : positive) (data : list N) (frag frag' : N -> N) (k k2 : snk) (trail : list N),
+  k_wfail k = None ->
+  k_wfail k2 = None ->
+  k_ffail k2 = false ->
+  nlen data < N.pos fuel ->
+  nlen data < N.pos fuel' ->
+  exists (w1 : io) (out : list N),
+    lzma2_compress fuel {| i_src := src_of data frag None; i_snk := k |} = (Done tt, w1) /\
+    snk_bytes (i_snk w1) = snk_bytes k ++ out /\
+    (exists w2 : io,
+       lzma2_decompress_top fuel' {| i_src := src_of (out ++ trail) frag' None; i_snk := k2 |} = (Done tt, w2) /\
+       snk_bytes (i_snk w2) = snk_bytes k2 ++ data /\
+       k_flushes (i_snk w2) = k_flushes k2 + 1 /\ s_rest (i_src w2) = trail).
+Proof. exact (@lzma2_round_trip). Qed.
+Check C04_lzma2_round_trip :
+  forall (fuel fuel' : positive) (data : list N) (frag frag' : N -> N) (k k2 : snk) (trail : list N),
+  k_wfail k = None ->
+  k_wfail k2 = None ->
+  k_ffail k2 = false ->
+  nlen data < N.pos fuel ->
+  nlen data < N.pos fuel' ->
+  exists (w1 : io) (out : list N),
+    lzma2_compress fuel {| i_src := src_of data frag None; i_snk := k |} = (Done tt, w1) /\
+    snk_bytes (i_snk w1) = snk_bytes k ++ out /\
+    (exists w2 : io,
+       lzma2_decompress_top fuel' {| i_src := src_of (out ++ trail) frag' None; i_snk := k2 |} = (Done tt, w2) /\
+       snk_bytes (i_snk w2) = snk_bytes k2 ++ data /\
+       k_flushes (i_snk w2) = k_flushes k2 + 1 /\ s_rest (i_src w2) = trail).
+Print Assumptions C04_lzma2_round_trip.
+
+(* xz_compress emits hdr ++ block ++ index ++ footer satisfying exactly the validity predicates of the XZ soundness theorem   [proved as xz_compress_valid in Proofs/XzEncConform.v] *)
+Theorem C04_xz_compress_valid :
+  forall crc32 crc64 : list N -> N,
+  (forall l : list N, crc32 l < 4294967296) ->
+  forall (fuel fuel' : positive) (data : list N) (frag : N -> N) (k : snk),
+  k_wfail k = None ->
+  nlen data < N.pos fuel ->
+  nlen data < N.pos fuel' ->
+  nlen data < 1152921504606846976 ->
+  exists (w' : io) (chunks : list (list N)) (hdr : list N) (b : blk) (index footer : list N),
+    xz_compress crc32 fuel {| i_src := src_of data frag None; i_snk := k |} = (Done tt, w') /\
+    snk_bytes (i_snk w') = snk_bytes k ++ hdr ++ blk_bytes b ++ index ++ footer /\
+    s_rest (i_src w') = [] /\
+    k_wfail (i_snk w') = None /\
+    header_bytes_ok crc32 CkNone hdr /\
+    concat chunks = data /\
+    Forall (fun c : list N => 1 <= nlen c <= 65536) chunks /\
+    b_hs b = 2 /\
+    b_hdr b = [0; 33; 1; 22; 0; 0; 0] /\
+    b_hcrc b = le_bytes 4 (crc32 xz_block_header) /\
+    b_payload b = concat (map (fun c : list N => 1 :: be_bytes 2 (nlen c - 1) ++ c) chunks) ++ [0] /\
+    b_pad b = repeat 0 (N.to_nat (padding_of (12 + nlen (b_payload b)))) /\
+    b_chk b = [] /\
+    b_out b = data /\
+    blk_ok crc32 crc64 fuel' CkNone b /\
+    index_bytes_ok crc32 [blk_record b] index /\ footer_bytes_ok crc32 CkNone (nlen index) footer.
+Proof. exact (@xz_compress_valid). Qed.
+Check C04_xz_compress_valid :
+  forall crc32 crc64 : list N -> N,
+  (forall l : list N, crc32 l < 4294967296) ->
+  forall (fuel fuel' : positive) (data : list N) (frag : N -> N) (k : snk),
+  k_wfail k = None ->
+  nlen data < N.pos fuel ->
+  nlen data < N.pos fuel' ->
+  nlen data < 1152921504606846976 ->
+  exists (w' : io) (chunks : list (list N)) (hdr : list N) (b : blk) (index footer : list N),
+    xz_compress crc32 fuel {| i_src := src_of data frag None; i_snk := k |} = (Done tt, w') /\
+    snk_bytes (i_snk w') = snk_bytes k ++ hdr ++ blk_bytes b ++ index ++ footer /\
+    s_rest (i_src w') = [] /\
+    k_wfail (i_snk w') = None /\
+    header_bytes_ok crc32 CkNone hdr /\
+    concat chunks = data /\
+    Forall (fun c : list N => 1 <= nlen c <= 65536) chunks /\
+    b_hs b = 2 /\
+    b_hdr b = [0; 33; 1; 22; 0; 0; 0] /\
+    b_hcrc b = le_bytes 4 (crc32 xz_block_header) /\
+    b_payload b = concat (map (fun c : list N => 1 :: be_bytes 2 (nlen c - 1) ++ c) chunks) ++ [0] /\
+    b_pad b = repeat 0 (N.to_nat (padding_of (12 + nlen (b_payload b)))) /\
+    b_chk b = [] /\
+    b_out b = data /\
+    blk_ok crc32 crc64 fuel' CkNone b /\
+    index_bytes_ok crc32 [blk_record b] index /\ footer_bytes_ok crc32 CkNone (nlen index) footer.
+Print Assumptions C04_xz_compress_valid.
+
+(* XZ round trip   [proved as xz_round_trip in Proofs/XzRoundTrip.v] *)
+Theorem C04_xz_round_trip :
+  forall crc32 crc64 : list N -> N,
+  (forall l : list N, crc32 l < 4294967296) ->
+  forall (fuel fuel' : positive) (data : list N) (frag frag' : N -> N) (k k2 : snk),
+  k_wfail k = None ->
+  k_wfail k2 = None ->
+  nlen data < N.pos fuel ->
+  nlen data < N.pos fuel' ->
+  1 < N.pos fuel' ->
+  nlen data < 1152921504606846976 ->
+  exists (w1 : io) (out : list N),
+    xz_compress crc32 fuel {| i_src := src_of data frag None; i_snk := k |} = (Done tt, w1) /\
+    snk_bytes (i_snk w1) = snk_bytes k ++ out /\
+    (exists w2 : io,
+       xz_decompress crc32 crc64 fuel' {| i_src := src_of out frag' None; i_snk := k2 |} = (Done tt, w2) /\
+       snk_bytes (i_snk w2) = snk_bytes k2 ++ data /\ s_rest (i_src w2) = []).
+Proof. exact (@xz_round_trip). Qed.
+Check C04_xz_round_trip :
+  forall crc32 crc64 : list N -> N,
+  (forall l : list N, crc32 l < 4294967296) ->
+  forall (fuel fuel' : positive) (data : list N) (frag frag' : N -> N) (k k2 : snk),
+  k_wfail k = None ->
+  k_wfail k2 = None ->
+  nlen data < N.pos fuel ->
+  nlen data < N.pos fuel' ->
+  1 < N.pos fuel' ->
+  nlen data < 1152921504606846976 ->
+  exists (w1 : io) (out : list N),
+    xz_compress crc32 fuel {| i_src := src_of data frag None; i_snk := k |} = (Done tt, w1) /\
+    snk_bytes (i_snk w1) = snk_bytes k ++ out /\
+    (exists w2 : io,
+       xz_decompress crc32 crc64 fuel' {| i_src := src_of out frag' None; i_snk := k2 |} = (Done tt, w2) /\
+       snk_bytes (i_snk w2) = snk_bytes k2 ++ data /\ s_rest (i_src w2) = []).
+Print Assumptions C04_xz_round_trip.
